@@ -276,7 +276,7 @@ package document
 // column because the contract of MergeCellsVertical has no frame for them.
 //@ func (*Table).MergeCellsRange
 //@ props C09
-//@ wf TableCell.Properties
+//@ wf TableCell.Properties, TableRow.Cells, Table.Rows
 //@ requires t != nil && rowsOwn(t) && cellPropsOwn(t)
 //@ ensures err == nil <==> (0 <= startRow && startRow <= endRow && endRow < old(len(t.Rows)) && 0 <= startCol && startCol <= endCol && forall r int :: startRow <= r && r <= endRow ==> endCol < old(len(t.Rows[r].Cells)))
 //@ ensures err != nil ==> unchangedHeap()
